@@ -25,7 +25,7 @@ RULE = (
     "least one and not all function sites."
 )
 ASSUMPTIONS = ["the restart uses the same program and the same arguments as the caching run, or (defaulted parameter) no arguments: the inputs of the caching run are in the file"]
-BUDGET = {"quick": {"shards": 4, "seconds": 40}, "thorough": {"shards": 16, "seconds": 420}}
+BUDGET = {"quick": {"shards": 8, "seconds": 40}, "thorough": {"shards": 16, "seconds": 420}}
 
 
 def _executor(b: prog.Built, ids: Dict[str, str], mode: str, sel: Optional[List[str]], **kw: Any) -> Any:
